@@ -43,7 +43,7 @@ class C03(Property):
 
     def regen(self, ctx):
         return regen_scripts([("core/limit/periodscript.lua", "Lua_period"),
-                              ("core/limit/tokenscript.lua", "Lua_token")])
+                              ("core/limit/tokenscript.lua", "Lua_token")], ctx.tier)
 
     # ------------------------------------------------------------------ cases
     def corpus(self):
@@ -58,8 +58,20 @@ class C03(Property):
             {"kind": "token", "rate": 2, "burst": 3, "n": 2, "base_ms": BASE, "ops": [A(0), A(0), A(1), A(1), ["adv", 1000], A(1, 2), A(0), ["down"], A(0), A(0), A(0), A(0), A(1), ["adv", 500], A(0), ["up"], A(0), A(1), ["adv", 1000], A(0), A(1)]},
             # exact quota, period boundary, error, garbage
             {"kind": "period", "period": 2, "quota": 3, "lims": 2, "keys": ["a", "b"],
-             "ops": [["take", 0, 0], ["take", 1, 0], ["take", 0, 1], ["take", 0, 0], ["take", 1, 0], ["adv", 1999], ["take", 0, 0], ["adv", 1],
-                     ["take", 0, 0], ["down"], ["take", 0, 0], ["up"], ["take", 0, 0], ["poke", 1, "zz"], ["take", 0, 1]]},
+             "ops": [["take", 0, 0], ["ttl", 0], ["take", 1, 0], ["take", 0, 1], ["take", 0, 0], ["take", 1, 0], ["adv", 1999], ["ttl", 0], ["take", 0, 0], ["adv", 1],
+                     ["ttl", 0], ["take", 0, 0], ["down"], ["take", 0, 0], ["up"], ["take", 0, 0], ["poke", 1, "zz"], ["take", 0, 1], ["ttl", 1],
+                     ["poke", 1, "0"], ["take", 0, 1], ["ttl", 1], ["poke", 1, "7"], ["take", 1, 1], ["ttl", 1]]},
+            # Align(): window = distance to the next multiple of the period on the local clock
+            {"kind": "period", "period": 86400, "quota": 2, "lims": 1, "keys": ["a", "b"], "align": True,
+             "ops": [["take", 0, 0], ["ttl", 0], ["adv", 500], ["take", 0, 0], ["ttl", 0], ["take", 0, 0], ["take", 0, 1], ["ttl", 1]]},
+            {"kind": "period", "period": 60, "quota": 1, "lims": 2, "keys": ["a"], "align": True,
+             "ops": [["take", 1, 0], ["ttl", 0], ["take", 0, 0]]},
+            # a long outage: the circuit breaker opens and keeps failing calls after recovery
+            {"kind": "period", "period": 5, "quota": 3, "lims": 2, "keys": ["a"], "breaker": True,
+             "ops": [["take", 0, 0], ["down"]] + [["take", 1, 0]] * 9 + [["up"]] + [["take", 0, 0]] * 6},
+            {"kind": "token", "rate": 2, "burst": 3, "n": 3, "base_ms": BASE, "breaker": True,
+             "ops": [A(0), ["down"], A(0), A(1), A(2), ["up"], ["down"], A(0), A(1), A(2), ["up"], ["down"], A(0), A(1), A(2), ["up"],
+                     A(0), A(1), A(2), A(0), A(1), A(2)]},
             {"kind": "period", "period": 1, "quota": 1, "lims": 1, "keys": ["a"], "ops": [["take", 0, 0], ["take", 0, 0], ["adv", 1000], ["take", 0, 0]]},
             {"kind": "period", "period": 3, "quota": 0, "lims": 1, "keys": ["a"], "ops": [["take", 0, 0], ["take", 0, 0]]},
         ]
@@ -73,44 +85,65 @@ class C03(Property):
     FAIL_BUDGET = 4
     TOKEN_FAIL_BUDGET = 3
 
-    def _period_case(self, rng):
-        period = rng.choice([1, 1, 2, 3, 5])
+    def _period_case(self, rng, breaker=False, align=False):
+        period = rng.choice([60, 3600, 86400, 7 * 86400]) if align else rng.choice([1, 1, 2, 3, 5])
         quota = rng.choice([0, 1, 1, 2, 3, 3, 5, 8])
         lims = rng.randint(1, 3)
         keys = ["a", "b", "c:d"][:rng.randint(1, 3)]
+        budget = 14 if breaker else self.FAIL_BUDGET
         ops = []
         down = False
         outages = 0
         fails = 0
+        advanced = 0
         garbage = set()
         for _ in range(rng.randint(10, 50)):
             r = rng.random()
-            if r < 0.68:
+            if r < 0.60:
                 k = rng.randrange(len(keys))
                 if down or k in garbage:
                     cost = 1 if down else 2
-                    if fails + cost > self.FAIL_BUDGET:
+                    if fails + cost > budget:
                         continue
                     fails += cost
                 ops.append(["take", rng.randrange(lims), k])
+            elif r < 0.70:
+                ops.append(["ttl", rng.randrange(len(keys))])
             elif r < 0.90:
                 p = period * 1000
-                ops.append(["adv", max(0, rng.choice([1, 500, 999, 1000, 1001, p - 1, p, p + 1, p // 2, rng.randint(0, p + 500)]))])
+                d = max(0, rng.choice([1, 500, 999, 1000, 1001, p - 1, p, p + 1, p // 2, rng.randint(0, p + 500)]))
+                if align:
+                    # the wall clock read by Align() does not follow FastForward: stay inside the
+                    # first window (>= 1 s) so that no second period is started
+                    d = rng.choice([1, 50, 200])
+                    if advanced + d > 900:
+                        continue
+                    advanced += d
+                ops.append(["adv", d])
             elif r < 0.96:
                 if down:
                     ops.append(["up"])
                     down = False
-                elif outages < 2:
+                elif outages < (4 if breaker else 2):
                     ops.append(["down"])
                     down = True
                     outages += 1
             elif not down:
                 k = rng.randrange(len(keys))
-                garbage.add(k)
-                ops.append(["poke", k, rng.choice(["zz", "x1"])])
-        return {"kind": "period", "period": period, "quota": quota, "lims": lims, "keys": keys, "ops": ops}
+                v = rng.choice(["zz", "x1", "0", "7", "-1"])
+                if v in ("zz", "x1"):
+                    garbage.add(k)
+                else:
+                    garbage.discard(k)
+                ops.append(["poke", k, v])
+        c = {"kind": "period", "period": period, "quota": quota, "lims": lims, "keys": keys, "ops": ops}
+        if align:
+            c["align"] = True
+        if breaker:
+            c["breaker"] = True
+        return c
 
-    def _token_case(self, rng, outages_allowed, skew):
+    def _token_case(self, rng, outages_allowed, skew, breaker=False):
         rate, burst = rng.choice([(1, 1), (1, 3), (2, 3), (2, 1), (3, 2), (3, 10), (5, 2), (5, 10), (7, 3), (10, 1), (10, 4),
                                   (10, 20), (50, 20), (50, 100), (4, 0), (3, 1)])
         n = rng.choice([1, 2, 2, 3, 4])
@@ -121,6 +154,7 @@ class C03(Property):
         down = False
         outages = 0
         fails = 0
+        budget = 12 if breaker else self.TOKEN_FAIL_BUDGET
         alive = [True] * n
         nops = rng.randint(8, 60)
         for _ in range(4 * nops):
@@ -131,7 +165,7 @@ class C03(Property):
                 size = rng.choice([1, 1, 1, 1, 0, 2, burst, burst + 1, rng.randint(0, burst + 1)])
                 i = rng.randrange(n)
                 if down and alive[i]:
-                    if fails >= self.TOKEN_FAIL_BUDGET:
+                    if fails >= budget:
                         continue
                     fails += 1
                     alive[i] = False
@@ -150,11 +184,14 @@ class C03(Property):
                     ops.append(["up"])
                     down = False
                     alive = [True] * n
-                elif outages < outages_allowed and fails < self.TOKEN_FAIL_BUDGET:
+                elif outages < outages_allowed and fails < budget:
                     ops.append(["down"])
                     down = True
                     outages += 1
-        return {"kind": "token", "rate": rate, "burst": burst, "n": n, "base_ms": base, "ops": ops}
+        c = {"kind": "token", "rate": rate, "burst": burst, "n": n, "base_ms": base, "ops": ops}
+        if breaker:
+            c["breaker"] = True
+        return c
 
     def _outage_placements(self, rng, count):
         """a short history with one outage window placed at every pair of positions"""
@@ -181,8 +218,13 @@ class C03(Property):
         n_out = max(12, n // 12)           # each recovery waits for a real 100 ms monitor tick
         n_place = max(12, n // 14)
         n_period = n // 3
-        for _ in range(n_period):
-            cases.append(self._period_case(rng))
+        for j in range(n_period):
+            # a share of the histories may push go-zero's circuit breaker over its threshold
+            # (answers then depend on its random drops: taken as oracle, validated in Check.v),
+            # a share uses Align()
+            cases.append(self._period_case(rng, breaker=(j % 8 == 0), align=(j % 8 == 1)))
+        for _ in range(max(6, n // 50)):
+            cases.append(self._token_case(rng, 4, False, breaker=True))
         cases += self._outage_placements(rng, n_place)
         for _ in range(n_out):
             cases.append(self._token_case(rng, rng.choice([1, 2]), False))
@@ -212,16 +254,25 @@ class C03(Property):
         for r in res:
             if r.get("err"):
                 raise ExecError("c03 executor: case %s: %s" % (r.get("id"), r["err"]))
-        return [{"obs": r["obs"], "disturbed": bool(r.get("disturbed"))} for r in res]
+        return [{"obs": r["obs"], "disturbed": bool(r.get("disturbed")), "base_ms": r.get("base_ms", 0),
+                 "offset": r.get("offset", 0)} for r in res]
 
     # ------------------------------------------------------------------ rendering
     def coq_case(self, case, obs):
         if case["kind"] == "period":
-            ops = []
-            for o in case["ops"]:
+            ops, ob = [], []
+            for o, x in zip(case["ops"], obs["obs"]):
                 if o[0] == "take":
-                    ops.append("PTake %s" % cbulk("p:" + case["keys"][o[2]]))
-                elif o[0] == "adv":
+                    ops.append("PTake %s %s" % (cbulk("p:" + case["keys"][o[2]]), cbool(x[2])))
+                    ob.append("PAns %s %s" % (PCODES[x[0]] if 0 <= x[0] <= 3 else "Unknown", cbool(x[1])))
+                    continue
+                if o[0] == "ttl":
+                    ops.append("PTtl %s" % cbulk("p:" + case["keys"][o[1]]))
+                    t = x["ttl"]
+                    ob.append("PTtlIs %s" % ("None" if t == -2 else "(Some None)" if t == -1 else "(Some (Some %s))" % cz(t)))
+                    continue
+                ob.append("PNone")
+                if o[0] == "adv":
                     ops.append("PAdvance %s" % cz(o[1]))
                 elif o[0] == "down":
                     ops.append("PDown")
@@ -229,16 +280,16 @@ class C03(Property):
                     ops.append("PUp")
                 else:
                     ops.append("PPoke %s %s" % (cbulk("p:" + case["keys"][o[1]]), cbulk(o[2])))
-            ob = ["None" if x is None else "Some (%s, %s)" % (PCODES[x[0]] if 0 <= x[0] <= 3 else "Unknown", cbool(x[1]))
-                  for x in obs["obs"]]
-            return "CPeriod %s %s %s %s" % (cz(case["quota"]), cz(case["period"]), clist(ops), clist(ob))
+            cfg = "(mkPC %s %s %s %s)" % (cz(case["quota"]), cz(case["period"]), cbool(case.get("align", False)),
+                                          cz(obs.get("offset", 0)))
+            return "CPeriod %s %s %s %s" % (cfg, cz(obs.get("base_ms", 0)), clist(ops), clist(ob))
         ops, ob = [], []
         clock = case["base_ms"]
         pings = ["TPing %d" % i for i in range(case["n"])]
         for o, x in zip(case["ops"], obs["obs"]):
             if o[0] == "allow":
                 now = clock + (o[3] if len(o) > 3 else 0)
-                ops.append("TAllow %d %s %s %s" % (o[1], cz(now), cz(o[2]), cbool(x[0])))
+                ops.append("TAllow %d %s %s %s %s" % (o[1], cz(now), cz(o[2]), cbool(x[0]), cbool(x[3])))
                 ob.append("OA %s %s %s" % (cbool(x[0]), cbool(x[1]), cbool(x[2])))
             elif o[0] == "adv":
                 clock += o[1]
@@ -258,7 +309,7 @@ class C03(Property):
     # ------------------------------------------------------------------ evidence
     def nontrivial(self, case, obs):
         if case["kind"] == "period":
-            codes = set(x[0] for x in obs["obs"] if x)
+            codes = set(x[0] for x in obs["obs"] if isinstance(x, list))
             return 2 in codes and 3 in codes
         shared = [(o, x) for o, x in zip(case["ops"], obs["obs"]) if o[0] == "allow" and x[1] and x[2]]
         rescue = [(o, x) for o, x in zip(case["ops"], obs["obs"]) if o[0] == "allow" and not x[2]]
@@ -272,19 +323,29 @@ class C03(Property):
             fs.append("timing_disturbed")
         if case["kind"] == "period":
             fs += ["quota=%d" % case["quota"], "period=%d" % case["period"]]
-            fs += ["code=%s%s" % (PCODES[x[0]], "+err" if x[1] else "") for x in obs["obs"] if x]
+            fs += ["code=%s%s" % (PCODES[x[0]], "+err" if x[1] else "") for x in obs["obs"] if isinstance(x, list)]
+            if case.get("align"):
+                fs.append("aligned")
+            if any(isinstance(x, list) and not x[2] for x in obs["obs"]):
+                fs.append("breaker_open_answer")
+            if any(isinstance(x, dict) for x in obs["obs"]):
+                fs.append("has_ttl_read")
         else:
             fs += ["rate/burst=%d/%d" % (case["rate"], case["burst"]), "instances=%d" % case["n"]]
             if 2 * case["burst"] < case["rate"]:
                 fs.append("2*burst<rate")
             if case.get("hard"):
                 fs.append("outage_by_close_restart")
+            if case.get("breaker"):
+                fs.append("may_cross_breaker_threshold")
             for o, x in zip(case["ops"], obs["obs"]):
                 if o[0] == "allow":
                     mode = "shared" if (x[1] and x[2]) else ("fallback_now" if x[1] else "rescue")
                     fs.append("%s:%s" % (mode, "grant" if x[0] else "deny"))
                     if len(o) > 3:
                         fs.append("clock_skew(out of scope)")
+                    if not x[3]:
+                        fs.append("breaker_open_answer")
                 elif o[0] in ("down", "up"):
                     fs.append("has_" + o[0])
         fs.append("ops<=%d" % (10 * (1 + len(case["ops"]) // 10)))
